@@ -58,7 +58,25 @@ relcheck_stage() { # the quick workload again in a build with overflow checks an
   fi
 }
 
+sync_stage() { # the quick workload again with tau-engine's `sync` feature (second copy of Object::find, Send + Sync bounds)
+  local cmd="$1"
+  if (cd "$H" && CARGO_TARGET_DIR="$H/target/sync" cargo build --release --offline --features sync >"$LOGS/sync-build.log" 2>&1); then
+    mkdir -p "$OUT/sync"; cp /verif/known_findings.json "$OUT/sync/" 2>/dev/null
+    "$H/target/sync/release/tmon" "$cmd" --tier quick --seed "$SEED" --verif "$OUT/sync" >"$LOGS/sync-run.log" 2>&1
+    local code=$?
+    local evals=$(sed -n 's/.*evaluations=\([0-9]*\).*/\1/p' "$LOGS/sync-run.log" | tail -1)
+    if [ "$code" -eq 1 ]; then rc=1; note "{\"tool\":\"build with feature sync\",\"workload\":\"$cmd quick workload\",\"inputs\":${evals:-0},\"reports\":1,\"log\":\"$LOGS/sync-run.log\"}"
+    elif [ "$code" -eq 0 ]; then note "{\"tool\":\"build with feature sync\",\"workload\":\"$cmd quick workload\",\"inputs\":${evals:-0},\"reports\":0}"
+    else [ $rc -eq 0 ] && rc=2; note "{\"tool\":\"build with feature sync\",\"status\":\"exit $code\"}"; fi
+  else
+    [ $rc -eq 0 ] && rc=2; note "{\"tool\":\"build with feature sync\",\"status\":\"build failed\"}"
+  fi
+}
+
 case "$P" in
+  C10)
+    sync_stage c10
+    ;;
   C09)
     relcheck_stage c09
     ;;
@@ -84,6 +102,7 @@ case "$P" in
     else [ $rc -eq 0 ] && rc=2; note "{\"tool\":\"miri\",\"workload\":\"sani $w\",\"inputs\":${MIRI_CASES:-0},\"status\":\"a shard did not finish (see $LOGS)\"}"; fi
     ;;
   C12)
+    sync_stage c12-threads
     if tsan_build; then
       TSAN_OPTIONS="halt_on_error=0:report_signal_unsafe=0" "$H/target/tsan/x86_64-unknown-linux-gnu/release/tmon" c12-threads --tier quick --seed "$SEED" >"$LOGS/tsan-run.log" 2>&1
       code=$?
